@@ -230,7 +230,29 @@ func cmdCheck(args []string) {
 		fmt.Printf("ENGINE-ERROR property=%s no obligations were generated (vacuous check)\n", *prop)
 		exit = 2
 	}
+	// 3b. thorough tier: bounded replay harnesses on the unchanged tree and the must-fail / must-pass corpora
+	thorough := map[string]interface{}{}
+	if *tier == "thorough" && !*noEvidence {
+		bounded, bad := runBoundedHarnesses(e, *prop)
+		thorough["bounded"] = bounded
+		for _, b := range bad {
+			os.MkdirAll(replayDir, 0755)
+			path := filepath.Join(replayDir, "bounded_"+sanitizeFile(b.name)+".txt")
+			os.WriteFile(path, []byte("bounded search on the real code found a failing input (stand-in, labelled bounded)\n\n"+b.text), 0644)
+			fmt.Printf("VIOLATION property=%s replay=%s\n", *prop, path)
+			exit = 1
+		}
+		st := runSelftest(*verif, *repo, *prop)
+		thorough["selftest"] = st
+		if len(st.Missed) > 0 || len(st.FalseAlarms) > 0 {
+			fmt.Printf("ENGINE-ERROR property=%s selftest: must-fail changes not detected %v, harmless changes flagged %v\n", *prop, st.Missed, st.FalseAlarms)
+			if exit == 0 {
+				exit = 2
+			}
+		}
+	}
 	// 4. evidence
+	extraCoverage = thorough
 	if !*noEvidence {
 		writeEvidence(e, *verif, *prop, *tier, seed, results, all, failed, known, discharged, nObl, solverTime, byBackend, time.Since(t0).Seconds(), rejected)
 	}
@@ -345,6 +367,9 @@ func writeEvidence(e *engine, verif, prop, tier string, seed int, results []*fnR
 		"bounded":                   []string{},
 		"explanation":               meta.explanation,
 	}
+	for k, v := range extraCoverage {
+		cov[k] = v
+	}
 	ev := evidence{PropertyID: prop, Tier: tier, Seed: seed, Level: "proof", Coverage: cov, WallS: float64(int(wall*100)) / 100, Violations: len(failed)}
 	ev.Assumptions = append(ev.Assumptions, meta.assumptions...)
 	ev.Assumptions = append(ev.Assumptions, sortedKeys(trusted)...)
@@ -355,6 +380,8 @@ func writeEvidence(e *engine, verif, prop, tier string, seed int, results []*fnR
 	data, _ := json.MarshalIndent(ev, "", " ")
 	os.WriteFile(filepath.Join(verif, "evidence", prop+".json"), data, 0644)
 }
+
+var extraCoverage map[string]interface{}
 
 var trustedBase = []string{
 	"go/packages + go/ssa (x/tools v0.29.0) build the SSA of /repo's working tree",
